@@ -25,7 +25,7 @@ MCTypeOptSet(k) ==
 B2N(b) == IF b THEN 1 ELSE 0
 \* all settings of one field count as one deviation (so that a field with both a rename and a method still
 \* fits next to one more setting elsewhere); likewise the settings of one variant, and the type's
-FieldDev(f) == B2N(f.dbg # Own \/ f.key # "")
+FieldDev(f) == B2N(f.dbg # Own \/ f.key # "" \/ f.ty # "P")
 RECURSIVE FieldsDev(_)
 FieldsDev(fs) == IF fs = <<>> THEN 0 ELSE FieldDev(Head(fs)) + FieldsDev(Tail(fs))
 VarDev(var) == B2N(var.dname # "default" \/ var.dnf # "default") + FieldsDev(var.fields)
@@ -46,7 +46,7 @@ MCFieldSet(c) ==
            offer == IF c.kind = "enum" /\ Len(lv.fields) >= 1
                     THEN { [DefField EXCEPT !.dbg = t] : t \in EnumSecondField }
                     ELSE FullFields
-       IN { f \in offer : Deviations(c) + FieldDev(f) <= MaxDeviations }
+       IN { f \in WithRef(c, offer) : Deviations(c) + FieldDev(f) <= MaxDeviations }
 
 \* bounding the number of settings that deviate from the default by t explores every interaction of up to t settings
 \* (t-way coverage) instead of the full cross product
@@ -106,4 +106,7 @@ TextSane ==
       IN /\ tx # ""
          /\ (x.v = y.v /\ \A i \in DbgShown(cfg, x.v) : x.f[i] = y.f[i]) => tx = ty
          /\ (x.v = y.v /\ \E i \in DbgShown(cfg, x.v) : x.f[i] # y.f[i]) => tx # ty
+\* corpus-only exploration (used where only the configurations are wanted, not the run machine): states in which a
+\* run has begun are not expanded
+CorpusOnly == run = NoRun
 =============================================================================
